@@ -834,19 +834,23 @@ static void do_prng(World &w, TaskState &t, const Op &op, int index) {
         std::vector<uint8_t> data; op_bytes(data, (size_t)op.a, op, 1);
         const unsigned char *dp = (data.empty() && (op.flags & F_NULLPTR)) ? nullptr : (data.empty() ? g_dummy : data.data());
         o.reqs.clear();
-        { CallScope cs(t); tinyjambu_prng_feed(st, dp, data.size()); }
-        if (o.since + 32 * o.feeds_since >= o.L) bump(w, CT_P_PRNG_FEED_AT_EDGE);
-        o.feeds_since++;
-        if (!o.reqs.empty()) { o.since = 0; o.feeds_since = 0; } // an implementation may reseed here; never an alarm
-        if (model_on && o.model_valid) {
-            if (!o.reqs.empty()) o.model_valid = false; // outside the documented algorithm; stop modelling, C15 generate check will not run
-            uint8_t nv[32];
-            model_df(w, nv, 1, o.V, data.data(), data.size());
-            memcpy(o.V, nv, 32);
-            model_df(w, o.C, 0, o.V, nullptr, 0);
-            o.counter++;
+        uint64_t reps = 1 + op.b;   // the same data fed reps times in a row (long feed runs reach integer-width corners of the counter)
+        for (uint64_t rep = 0; rep < reps && !w.stop; rep++) {
+            { CallScope cs(t); tinyjambu_prng_feed(st, dp, data.size()); }
+            if (o.since + 32 * o.feeds_since >= o.L && rep == 0) bump(w, CT_P_PRNG_FEED_AT_EDGE);
+            o.feeds_since++;
+            if (!o.reqs.empty()) { o.since = 0; o.feeds_since = 0; } // an implementation may reseed here; never an alarm
+            if (model_on && o.model_valid) {
+                if (!o.reqs.empty()) o.model_valid = false; // outside the documented algorithm; stop modelling, C15 generate check will not run
+                uint8_t nv[32];
+                model_df(w, nv, 1, o.V, data.data(), data.size());
+                memcpy(o.V, nv, 32);
+                model_df(w, o.C, 0, o.V, nullptr, 0);
+                o.counter++;
+            }
+            o.reqs.clear();
         }
-        o.reqs.clear();
+        if (reps > 1) bump(w, CT_P_PRNG_FEED_RUN);
         fence_check(w, o.m, C15, "PRNG state");
         note(w, t, index, 0, nullptr, 0);
         break;
